@@ -39,14 +39,19 @@ func (m *Mutex) Unlock() {
 	m.locked = false
 }
 
+// RWMutex: as documented for sync.RWMutex, a blocked Lock call excludes new readers from acquiring the lock
+// (so a goroutine that read-locks recursively deadlocks with a writer that arrives in between).
 type RWMutex struct {
-	w bool
-	r int
+	w  bool
+	r  int
+	pw int // writers waiting in Lock
 }
 
 func (m *RWMutex) Lock() {
 	zzrt.Point()
+	m.pw++
 	zzrt.Await(func() bool { return !m.w && m.r == 0 })
+	m.pw--
 	m.w = true
 	zzrt.HBAcquire(m)
 }
@@ -61,7 +66,7 @@ func (m *RWMutex) Unlock() {
 
 func (m *RWMutex) RLock() {
 	zzrt.Point()
-	zzrt.Await(func() bool { return !m.w })
+	zzrt.Await(func() bool { return !m.w && m.pw == 0 })
 	m.r++
 	zzrt.HBAcquire(m)
 }
